@@ -5,3 +5,4 @@ import Wl2kVerif.Ops.Msg
 import Wl2kVerif.Ops.Url
 import Wl2kVerif.Ops.Lzhuf
 import Wl2kVerif.Ops.Session
+import Wl2kVerif.Ops.Telnet
